@@ -163,7 +163,7 @@ def run(ctx):
                           ['vmdk'], [512, 512 + MI - 1, 512 + MI]))
     cases.append(({'gen': 'hostile_vmdk', 'params': {'desc_num': (1 << 64) - 1, 'total': 3 * MI, 'nul_at': 700000}},
                   ['vmdk'], [512, 700512, 512 + MI]))
-    for k in range(ctx.pick(20, 200)):
+    for k in range(ctx.pick(20, 1500)):
         cases.append(({'gen': 'hostile_vmdk', 'params': {'desc_num': rng.choice(huge + [rng.getrandbits(64), rng.randrange(2048, 1 << 20), rng.randrange(1, 1 << 32), rng.randrange(1, 5000)]),
                                                          'footer': rng.random() < 0.5, 'ver': rng.choice([1, 2, 3]),
                                                          'total': rng.randrange(2 * MI, ctx.pick(4, 6) * MI)}},
@@ -181,7 +181,7 @@ def run(ctx):
         mo = q.get('meta_off', 256 * 1024)
         cases.append(({'gen': 'hostile_vhdx', 'params': q}, ['vhdx'],
                       [192 * 1024, 256 * 1024, mo, mo + 32, mo + 65536, mo + q.get('item_off', 0x10000)]))
-    for k in range(ctx.pick(20, 200)):
+    for k in range(ctx.pick(20, 1500)):
         q = dict(rng.choice(vh))
         q['tail'] = rng.randrange(2 * MI, ctx.pick(3, 5) * MI)
         q['item_len'] = rng.choice([8, 65536, (1 << 32) - 1, rng.getrandbits(32)])
